@@ -13,6 +13,9 @@ CLAIMED = {
  "C03": ("exploration", "repetition/permutation differential + before/after snapshots + Go race detector on a shared pattern",
          "Each of 3e4/4e5 cases is evaluated 48/192 times with maps rebuilt in different insertion orders (all permutations of small top-level pattern maps); outcome multisets must coincide, inputs must equal their snapshots, results must be independent maps; 32 goroutines match one shared pattern object under -race with results compared to the sequential ones.",
          "Relies on Go's small-map iteration being a rotation of insertion order; race detector sees only interleavings that occurred.", "DESIGN.md §4 C03"),
+ "C04": ("exploration", "executable reference model of the documented step rule compared with Spec.Step at run time",
+         "An independent ~250-line transcription of the documented processing rule is compared with Spec.Step on every enumerated single-node configuration (the reduced vocabulary is enumerated completely: natively in both tiers, with ECMAScript actions in thorough; the full vocabulary natively in thorough) and on every stride of random 3-node specs, native and ECMAScript renderings. Reference-model differential, held-on-observed.",
+         "Trusts the transcription ref/step.go (sources cited in its comments), the DSL reference evaluator, and the real matcher for branch patterns (itself monitored by C01-C03); error texts compared by marker containment.", "DESIGN.md §4 C04"),
 }
 
 NOT_YET = "check not built yet in this session (planned: see DESIGN.md §4)"
